@@ -32,9 +32,10 @@ VARIABLES idx,       \* rotation index of the pool (membership fixed in this mod
           answered,  \* history (declarative): Dialog -|-> backend that answered / whose SUBSCRIBE was answered
           last,      \* the last dispatch: [dlg, method, tgt, origin]
           due,       \* more than a dialog timeout has passed since the pin table was last purged
-          long       \* dialogs established by a response whose Expires exceeds the dialog timeout
+          long,      \* dialogs established by a response whose Expires exceeds the dialog timeout
+          tx         \* live binding of a dialog's INVITE transaction : Dialog -|-> backend it was dispatched to
 
-vars == <<idx, pins, inv, answered, last, due, long>>
+vars == <<idx, pins, inv, answered, last, due, long, tx>>
 
 CONSTANT BackSeq     \* Backs as a sequence (registration order)
 
@@ -42,15 +43,16 @@ Put(f, k, v) == [x \in DOMAIN f \cup {k} |-> IF x = k THEN v ELSE f[x]]
 Drop(f, k) == [x \in DOMAIN f \ {k} |-> f[x]]
 NoDispatch == [dlg |-> "-", method |-> "-", tgt |-> "-", origin |-> "-"]
 
-Init == idx = 0 /\ pins = <<>> /\ inv = <<>> /\ answered = <<>> /\ last = NoDispatch /\ due = FALSE /\ long = {}
+Init == idx = 0 /\ pins = <<>> /\ inv = <<>> /\ answered = <<>> /\ last = NoDispatch /\ due = FALSE /\ long = {} /\ tx = <<>>
 \* storing pin k runs the purge when one is due
 AfterPurge(p, k) == IF due /\ PurgeEvictsLive THEN [x \in {k} |-> p[x]] ELSE p
-UptimePasses == due' = TRUE /\ UNCHANGED <<idx, pins, inv, answered, last, long>>
+UptimePasses == due' = TRUE /\ UNCHANGED <<idx, pins, inv, answered, last, long, tx>>
 Restrict(f, S) == [x \in DOMAIN f \cap S |-> f[x]]
 \* one dialog timeout passes (less than the Expires of the long dialogs): what the code still honours, what the property still claims
 TimeoutPasses == /\ pins' = Restrict(pins, IF ExpiresIgnored THEN {} ELSE long)
                  /\ answered' = Restrict(answered, long)
                  /\ due' = TRUE
+                 /\ tx' = <<>>                                   \* transaction bindings live one dialog timeout
                  /\ UNCHANGED <<idx, inv, last, long>>
 
 PoolPick == SeqDispatch(BackSeq, idx)
@@ -60,10 +62,11 @@ Initial(d) == /\ d \notin DOMAIN inv
               /\ idx' = PoolPick.idx
               /\ inv' = Put(inv, d, PoolPick.tgt)
               /\ last' = [dlg |-> d, method |-> "INVITE0", tgt |-> PoolPick.tgt, origin |-> "pool"]
+              /\ tx' = Put(tx, d, PoolPick.tgt)
               /\ UNCHANGED <<pins, answered, due, long>>
 Unrelated == /\ idx' = PoolPick.idx
              /\ last' = [dlg |-> "-", method |-> "OPTIONS", tgt |-> PoolPick.tgt, origin |-> "pool"]
-             /\ UNCHANGED <<pins, inv, answered, due, long>>
+             /\ UNCHANGED <<pins, inv, answered, due, long, tx>>
 
 \* the backend that holds the dialog answers the INVITE (or a re-INVITE) with both tags
 Answer(d, lg) ==
@@ -71,6 +74,19 @@ Answer(d, lg) ==
              /\ long' = (IF lg THEN long \cup {d} ELSE long \ {d})
              /\ pins' = AfterPurge(Put(pins, d, inv[d]), d) /\ due' = FALSE
              /\ answered' = IF d \in DOMAIN answered THEN answered ELSE Put(answered, d, inv[d])
+             /\ last' = NoDispatch
+             /\ UNCHANGED <<idx, inv, tx>>
+
+\* the backend answers the INVITE from ANOTHER address than the registered one: attributed through the transaction
+\* binding if there is one (else not at all); a final response consumes the binding
+AnswerElsewhere(d, final) ==
+             /\ d \in DOMAIN inv
+             /\ IF d \in DOMAIN tx
+                THEN /\ pins' = AfterPurge(Put(pins, d, tx[d]), d) /\ due' = FALSE
+                     /\ answered' = (IF d \in DOMAIN answered THEN answered ELSE Put(answered, d, tx[d]))
+                     /\ long' = long \ {d}
+                ELSE UNCHANGED <<pins, due, answered, long>>
+             /\ tx' = (IF final THEN Drop(tx, d) ELSE tx)
              /\ last' = NoDispatch
              /\ UNCHANGED <<idx, inv>>
 
@@ -82,7 +98,7 @@ Rejected(d) ==
              /\ pins' = (IF RejectUnpins THEN Drop(pins, d) ELSE AfterPurge(Put(pins, d, inv[d]), d)) /\ due' = FALSE
              /\ long' = long \ {d}
              /\ last' = NoDispatch
-             /\ UNCHANGED <<idx, inv, answered>>
+             /\ UNCHANGED <<idx, inv, answered, tx>>
 
 \* a SUBSCRIBE issued by backend b is answered from outside: the response passes towards b
 SubscribeAnswered(d, b, lg) ==
@@ -92,7 +108,7 @@ SubscribeAnswered(d, b, lg) ==
                            /\ answered' = Put(answered, d, b)
                            /\ inv' = Put(inv, d, b)
                            /\ last' = NoDispatch
-                           /\ UNCHANGED idx
+                           /\ UNCHANGED <<idx, tx>>
 
 \* an in-dialog request (both tags) addressed to the service, from either party
 InDialog(d, m) ==
@@ -103,6 +119,7 @@ InDialog(d, m) ==
        IN /\ idx' = IF hit THEN idx ELSE PoolPick.idx
           /\ last' = [dlg |-> d, method |-> m, tgt |-> tgt, origin |-> IF hit THEN "pin" ELSE "pool"]
           /\ inv' = IF m = "INVITE" THEN Put(inv, d, tgt) ELSE inv      \* whoever gets the re-INVITE answers it
+          /\ tx' = IF m = "INVITE" THEN Put(tx, d, tgt) ELSE tx
           /\ pins' = pins
           /\ UNCHANGED <<answered, due, long>>
 
@@ -116,7 +133,7 @@ NotifyTerminated(d) ==
     /\ pins' = Drop(pins, d)
     /\ answered' = Drop(answered, d)
     /\ long' = long \ {d}
-    /\ UNCHANGED <<inv, due>>
+    /\ UNCHANGED <<inv, due, tx>>
 
 \* the backend answers a BYE of the dialog (any status)
 ByeAnswered(d) == /\ d \in DOMAIN inv
@@ -124,10 +141,11 @@ ByeAnswered(d) == /\ d \in DOMAIN inv
                   /\ answered' = Drop(answered, d)
                   /\ last' = NoDispatch
                   /\ long' = long \ {d}
-                  /\ UNCHANGED <<idx, inv, due>>
+                  /\ UNCHANGED <<idx, inv, due, tx>>
 
 Next == \/ \E d \in Dialogs : Initial(d) \/ ByeAnswered(d) \/ NotifyTerminated(d) \/ Rejected(d)
         \/ \E d \in Dialogs, lg \in BOOLEAN : Answer(d, lg)
+        \/ \E d \in Dialogs, f \in BOOLEAN : AnswerElsewhere(d, f)
         \/ \E d \in Dialogs, m \in Methods : InDialog(d, m)
         \/ \E d \in Dialogs, b \in Backs, lg \in BOOLEAN : SubscribeAnswered(d, b, lg)
         \/ Unrelated \/ UptimePasses \/ TimeoutPasses
@@ -141,4 +159,6 @@ StickyStep == [][\A d \in Dialogs : (last'.dlg = d /\ d \in DOMAIN answered /\ l
 \* requests of no known dialog are load-balanced
 Balanced == [][(last' # last /\ last'.tgt # "-" /\ last'.dlg \notin DOMAIN answered) => last'.origin = "pool"]_vars
 PinsAreAnswered == DOMAIN pins \subseteq DOMAIN answered
+\* the binding of a dialog's INVITE transaction names the backend the INVITE went to
+TxAgrees == \A d \in DOMAIN tx : d \in DOMAIN inv /\ tx[d] = inv[d]
 =============================================================================
